@@ -294,6 +294,16 @@ pub struct VerifPeerState {
 
 #[cfg(feature = "verif")]
 impl NamespaceStates {
+    /// Snapshot of every peer of a document (verification hook).
+    pub fn verif_snapshot_all(&self, namespace: &NamespaceId) -> Vec<(EndpointId, VerifPeerState)> {
+        let Some(ns) = self.0.get(namespace) else {
+            return Vec::new();
+        };
+        ns.nodes
+            .keys()
+            .filter_map(|n| self.verif_snapshot(namespace, n).map(|s| (*n, s)))
+            .collect()
+    }
     /// Snapshot (verification hook).
     pub fn verif_snapshot(&self, namespace: &NamespaceId, node: &EndpointId) -> Option<VerifPeerState> {
         let ns = self.0.get(namespace)?;
